@@ -213,14 +213,24 @@ def log_path(base: str, algo: str, inst: str, seed: int) -> str:
 
 @st.composite
 def bp_cases(draw: Any) -> dict:
-    if draw(st.integers(0, 2)) != 0:
+    which = draw(st.integers(0, 5))
+    if which == 5:
+        # pieces of 1..3 cut-up bins (a packing into that many bins exists):
+        # the searches often reach the optimum, i.e. the declared bounds
+        g = draw(gen_bp.guillotine_shaped(max_bins=3, max_dim=30, big_dim=60))
+        gc = {"W": g["W"], "H": g["H"],
+              "items": [list(r) for r in g["items"]]}
+        if sum(it[2] for it in gc["items"]) < 2:
+            gc["items"][0][2] = 2
+        inst: dict = {"kind": "gen", "case": gc, "cut_from_bins": g["k"]}
+    elif which >= 2:
         gc = draw(gen_bp.instances(
             classes=("tiny", "small", "small", "medium", "medium",
                      "int8_edge", "int8_edge", "nitems_edge"), max_types=5,
             max_items=10))
         if sum(it[2] for it in gc["items"]) < 2:
             gc["items"][0][2] = 2  # moptipy's search space needs >= 2 items
-        inst: dict = {"kind": "gen", "case": gc}
+        inst = {"kind": "gen", "case": gc}
     else:
         inst = {"kind": "res", "name": draw(st.sampled_from(BP_RESOURCES))}
     return {"family": "bp", "setup": draw(st.sampled_from(["rls", "fea"])),
@@ -315,7 +325,8 @@ def check_bp(ctx: Ctx, case: dict) -> None:
             check_packing_result(got[0], inst, vals, what + " from_logs")
             require(got[0].end_result == er, "from_logs: other end result")
     ctx.rec.case(case, nontrivial=r1["last_imp"] > 1, labels=[
-        "family=bp", f"bp.setup={case['setup']}", f"bp.inst={ic['kind']}",
+        "family=bp", f"bp.setup={case['setup']}", "bp.inst=cut_bins" if ic.get("cut_from_bins")
+        else f"bp.inst={ic['kind']}",
         f"bp.obj={case['obj']}", f"bp.enc={case['enc']}",
         "stopped_early" if r1["fes"] < case["budget"] else "full_budget"])
 
